@@ -59,12 +59,34 @@ type Contract struct {
 	Ghosts   []string // universally quantified ghost parameters ("name sort")
 	FreshResult bool
 	Uses    []*Clause // lemma instantiations assumed at entry (each must be a proved lemma/axiom instance)
+	Stamps  []*Stamp  // ghost stamps recorded at every send on a channel
 	Exports []*Clause // int-mode postconditions of a bv-mode function (justified by bridge obligations)
+}
+
+// Stamp: "stamp ch: expr" records the value of expr (an Int) alongside every
+// element this function sends on channel ch (ghost history, see stamp()).
+type Stamp struct {
+	Chan  ast.Expr
+	Expr  ast.Expr
+	Text  string
+	Where string
 }
 
 type Macro struct {
 	Name   string
 	Params []string
+	Body   ast.Expr
+	Text   string
+	Where  string
+}
+
+// Pred: an opaque predicate "defpred name(p: Sort, ...) = body".  It is declared
+// as an uninterpreted function with a definitional axiom triggered on its
+// applications, so that solvers unfold it only where it is mentioned.
+type Pred struct {
+	Name   string
+	Params []string
+	Sorts  []string
 	Body   ast.Expr
 	Text   string
 	Where  string
@@ -84,6 +106,7 @@ type Axiom struct {
 	Expr    ast.Expr
 	Where   string
 	Lemma   bool // proved by the engine (as an obligation) rather than assumed
+	Raw     string // raw SMT-LIB text (rawaxiom)
 }
 
 type TypeSpec struct {
@@ -107,10 +130,11 @@ type SpecLib struct {
 	Types     map[string]*TypeSpec
 	Globals   []*GlobalInv
 	Files     []string
+	Preds     map[string]*Pred
 }
 
 func newSpecLib() *SpecLib {
-	return &SpecLib{Contracts: map[string]*Contract{}, Macros: map[string]*Macro{}, UFs: map[string]*UFDecl{}, Types: map[string]*TypeSpec{}}
+	return &SpecLib{Contracts: map[string]*Contract{}, Macros: map[string]*Macro{}, UFs: map[string]*UFDecl{}, Types: map[string]*TypeSpec{}, Preds: map[string]*Pred{}}
 }
 
 var propRe = regexp.MustCompile(`^\[([A-Z0-9, ]+)\]\s*`)
@@ -120,7 +144,7 @@ var keywords = map[string]bool{
 	"decreases": true, "loop": true, "mode": true, "inline": true, "assume-contract": true, "pure": true,
 	"let": true, "define": true, "declare": true, "axiom": true, "lemma": true, "owned": true, "model": true,
 	"global": true, "nosafety": true, "assert": true, "split": true, "guarded_by": true, "ghostparam": true,
-	"fresh-result": true, "use": true, "exports": true,
+	"fresh-result": true, "use": true, "exports": true, "rawaxiom": true, "stamp": true, "defpred": true,
 }
 
 // rewriteImplies turns the infix "A ==> B" (lowest precedence, right
@@ -492,6 +516,26 @@ func (lib *SpecLib) loadFile(path, pkgPath string) error {
 				return err
 			}
 			lib.Macros[m.Name] = m
+		case "defpred":
+			re := regexp.MustCompile(`^(\w+)\((.*?)\)\s*=\s*(.+)$`)
+			m := re.FindStringSubmatch(it.rest)
+			if m == nil {
+				return fmt.Errorf("%s: bad defpred", it.where)
+			}
+			e, err := parseExpr(m[3], it.where)
+			if err != nil {
+				return err
+			}
+			pr := &Pred{Name: m[1], Body: e, Text: m[3], Where: it.where}
+			for _, p := range splitTop(m[2], ',') {
+				kv := strings.SplitN(p, ":", 2)
+				if len(kv) != 2 {
+					return fmt.Errorf("%s: defpred parameter needs a sort: %q", it.where, p)
+				}
+				pr.Params = append(pr.Params, strings.TrimSpace(kv[0]))
+				pr.Sorts = append(pr.Sorts, strings.TrimSpace(kv[1]))
+			}
+			lib.Preds[pr.Name] = pr
 		case "declare":
 			// declare name(Sort, Sort) Sort
 			re := regexp.MustCompile(`^(\w+)\((.*)\)\s*(.+)$`)
@@ -526,6 +570,34 @@ func (lib *SpecLib) loadFile(path, pkgPath string) error {
 				}
 			}
 			lib.Axioms = append(lib.Axioms, ax)
+		case "rawaxiom":
+			re := regexp.MustCompile(`^(\w+)\s*\[([\w, ]*)\]\s*:\s*(.+)$`)
+			m := re.FindStringSubmatch(it.rest)
+			if m == nil {
+				return fmt.Errorf("%s: bad rawaxiom", it.where)
+			}
+			ax := &Axiom{Name: m[1], Text: m[3], Raw: m[3], Where: it.where}
+			for _, t := range strings.Split(m[2], ",") {
+				t = strings.TrimSpace(t)
+				if t != "" {
+					ax.Trigger = append(ax.Trigger, t)
+				}
+			}
+			lib.Axioms = append(lib.Axioms, ax)
+		case "stamp":
+			parts := strings.SplitN(it.rest, ":", 2)
+			if cur == nil || len(parts) != 2 {
+				return fmt.Errorf("%s: bad stamp (want: stamp chan: expr)", it.where)
+			}
+			ce, err := parseExpr(strings.TrimSpace(parts[0]), it.where)
+			if err != nil {
+				return err
+			}
+			ee, err := parseExpr(strings.TrimSpace(parts[1]), it.where)
+			if err != nil {
+				return err
+			}
+			cur.Stamps = append(cur.Stamps, &Stamp{Chan: ce, Expr: ee, Text: it.rest, Where: it.where})
 		case "global":
 			c, err := mkClause(it.rest, it.where)
 			if err != nil {
@@ -584,4 +656,26 @@ func (lib *SpecLib) sortedContractKeys() []string {
 	}
 	sort.Strings(ks)
 	return ks
+}
+
+// splitConj splits a clause at top-level conjunctions (also inside the
+// consequent of implies) so that every conjunct becomes its own obligation.
+func splitConj(e ast.Expr) []ast.Expr {
+	switch n := e.(type) {
+	case *ast.ParenExpr:
+		return splitConj(n.X)
+	case *ast.BinaryExpr:
+		if n.Op.String() == "&&" {
+			return append(splitConj(n.X), splitConj(n.Y)...)
+		}
+	case *ast.CallExpr:
+		if id, ok := n.Fun.(*ast.Ident); ok && id.Name == "implies" && len(n.Args) == 2 {
+			var out []ast.Expr
+			for _, c := range splitConj(n.Args[1]) {
+				out = append(out, &ast.CallExpr{Fun: n.Fun, Args: []ast.Expr{n.Args[0], c}})
+			}
+			return out
+		}
+	}
+	return []ast.Expr{e}
 }
